@@ -179,6 +179,9 @@ func c15AvailCase(t *rapid.T, odsSizes []int) {
 		age := time.Duration(rapid.Int64Range(0, int64(window-margin)).Draw(t, "age"))
 		if !b.inside {
 			age = window + margin + time.Duration(rapid.Int64Range(0, int64(2*window)).Draw(t, "age"))
+		} else if rapid.IntRange(0, 7).Draw(t, "aheadOfClock") == 0 {
+			// stamped ahead of this node's clock (clock skew): as fresh as a block can be
+			age = -time.Duration(rapid.IntRange(1, 90).Draw(t, "aheadBySec")) * time.Second
 		}
 		b.eh = &header.ExtendedHeader{
 			RawHeader: header.RawHeader{Height: int64(b.height), Time: now.Add(-age), DataHash: b.sq.Roots.Hash()},
@@ -186,6 +189,35 @@ func c15AvailCase(t *rapid.T, odsSizes []int) {
 		}
 		blocks = append(blocks, b)
 		fmt.Fprintf(&desc, " [h=%d inside=%v %s]", b.height, b.inside, b.sq.Desc())
+	}
+
+	// Occasionally two heights carry the same non-empty square (the store keeps one file per data
+	// hash and a link per height, so it supports that): the second height must be stored under its
+	// own height too. Such cases run without injected store faults and with both heights on the same
+	// side of the window, because the parity file is kept per data hash.
+	shared := rapid.IntRange(0, 5).Draw(t, "sharedRoot") == 0
+	if shared {
+		for _, o := range blocks {
+			if o.sq.Empty {
+				continue
+			}
+			twin := &c15Blk{height: o.height + 3, sq: o.sq, inside: o.inside}
+			twin.eh = &header.ExtendedHeader{
+				RawHeader: header.RawHeader{Height: int64(twin.height), Time: o.eh.Time(), DataHash: o.sq.Roots.Hash()},
+				DAH:       o.sq.Roots,
+			}
+			blocks = append(blocks, twin)
+			fmt.Fprintf(&desc, " [h=%d twin of h=%d]", twin.height, o.height)
+			break
+		}
+	}
+	twinStored := func(b *c15Blk, stored map[uint64]bool) bool {
+		for _, o := range blocks {
+			if o != b && !o.sq.Empty && string(o.sq.Roots.Hash()) == string(b.sq.Roots.Hash()) && stored[o.height] {
+				return true
+			}
+		}
+		return false
 	}
 
 	getter := &c15Getter{}
@@ -207,6 +239,9 @@ func c15AvailCase(t *rapid.T, odsSizes []int) {
 		b := blocks[rapid.IntRange(0, len(blocks)-1).Draw(t, "blk")]
 		outcome := rapid.SampledFrom(c15Outcomes).Draw(t, "outcome")
 		fault := rapid.SampledFrom(c15StoreFaults).Draw(t, "storefault")
+		if shared {
+			fault = "none"
+		}
 		prestore := !stored[b.height] && rapid.IntRange(0, 5).Draw(t, "prestore") == 0
 		ctxCancelled := rapid.IntRange(0, 9).Draw(t, "ctxCancelled") == 0
 		if prestore {
@@ -294,7 +329,7 @@ func c15AvailCase(t *rapid.T, odsSizes []int) {
 			if has != wasStored {
 				t.Fatalf("C15 %s: the check failed (%v) but the height's presence changed from %v to %v", where, cerr, wasStored, has)
 			}
-			if !wasStored && !b.sq.Empty {
+			if !wasStored && !b.sq.Empty && !twinStored(b, stored) {
 				if hb, err := st.HasByHash(ctx, b.sq.Roots.Hash()); err != nil || hb {
 					t.Fatalf("C15 %s: the check failed (%v) but the store holds the block by hash (%v, %v)", where, cerr, hb, err)
 				}
@@ -364,6 +399,9 @@ func c15AvailCase(t *rapid.T, odsSizes []int) {
 				}
 			}
 			stored[b.height] = true
+			if shared && twinStored(b, stored) {
+				labels["two-heights-one-root-stored"] = true
+			}
 			switch {
 			case b.sq.Empty:
 				labels["empty-linked"] = true
@@ -410,7 +448,7 @@ func c15AvailCase(t *rapid.T, odsSizes []int) {
 	for _, k := range []string{
 		"getter=square", "getter=notfound", "getter=deadline", "getter=cancelled", "getter=byzantine", "getter=byzantine+deadline",
 		"getter=other", "outside:pruned-refused", "storefault:failed", "failed", "stored-after-failure", "empty-linked",
-		"already-stored", "stored:inside", "stored:archival-outside",
+		"already-stored", "stored:inside", "stored:archival-outside", "two-heights-one-root-stored",
 	} {
 		if labels[k] {
 			lab = append(lab, "avail:"+k)
